@@ -160,6 +160,7 @@ def pmap(func, items, into, nshards=None, nproc=None, item_cpu_s=None):
     budget = item_cpu_s or ITEM_CPU_BUDGET or (600.0 if getattr(into, 'tier', 'quick') == 'quick' else 3600.0)
     pidname = getattr(into, 'pid', 'X')
     running = {}   # fd -> dict(pid, shard, buf, shm, last_index, cpu_at_item_start)
+    hangs = 0
     while queue or running:
         while queue and len(running) < nproc:
             sh = queue.pop(0)
@@ -209,7 +210,15 @@ def pmap(func, items, into, nshards=None, nproc=None, item_cpu_s=None):
                                '(cases of this check need seconds)' % budget, {'hang_item': jsonable(st['shard'][k]), 'func': func.__module__ + ':' + func.__name__})
                 into.count('evaluations', 1)
                 rest = st['shard'][:k] + st['shard'][k + 1:]
-                if rest:
+                hangs += 1
+                if hangs == 1:
+                    budget = min(budget, 90.0)          # the violation is established; do not spend the full budget on every further case
+                if hangs >= 4:
+                    # repeated hangs: the remaining cases of this call are not run (the run is no longer a complete exploration; it is a
+                    # failed one in any case)
+                    into.note('aborted_after_repeated_hangs', {func.__name__: len(queue) + len(running)})
+                    queue[:] = []
+                elif rest:
                     queue.insert(0, rest)      # results of the finished items were lost with the child: redo them
         for fd in ready:
             if fd not in running:
